@@ -31,8 +31,48 @@ EXEMPT = {
         'the `default:` branch of the resume switch is unreachable: __Pyx_Coroutine_SendEx rejects resume_label == -1 before calling the body and every other label has a case',
 }
 
-# single-edit variants tried on a scratch copy (file, edit, rule that reported it) -- see final builder report
-MUTATIONS = []
+# Single-edit variants tried on a scratch copy: (file, edit, rule/construct that reported it).  All 22 breaking edits produced a
+# new violation naming the construct (in addition to the two genuine findings below); the behaviour-preserving ones added nothing.
+MUTATIONS = [
+    ('Cython/Compiler/Nodes.py', 'ReraiseStatNode: drop the `if code.is_tracing():` around put_trace_exception', 'C45-GUARD Nodes.ReraiseStatNode.generate_execution_code:put_trace_exception#1'),
+    ('Cython/Compiler/Nodes.py', 'ExceptClauseNode: `if tracing:` -> `if needs_exception:` around "__Pyx_TraceExceptionDone();"', 'C45-GUARD ...:__Pyx_TraceExceptionDone#1'),
+    ('Cython/Compiler/Nodes.py', 'FuncDefNode: delete put_trace_unwind under "#if CYTHON_USE_SYS_MONITORING"', 'C45-PAIR ...:code:error:no-unwind'),
+    ('Cython/Compiler/Nodes.py', 'FuncDefNode: "#if CYTHON_USE_SYS_MONITORING" -> "#if !CYTHON_USE_SYS_MONITORING"', 'C45-PAIR ...:code:error:return-under-monitoring'),
+    ('Cython/Compiler/Nodes.py', 'GeneratorBodyDefNode: delete `if tracing: code.put_trace_unwind(self.pos)`', 'C45-PAIR ...:code:error:no-unwind'),
+    ('Cython/Compiler/Nodes.py', 'FuncDefNode: delete code.put_trace_exit(...)', 'C45-PAIR ...:code:success:no-exit + error:no-exit'),
+    ('Cython/Compiler/Nodes.py', 'GeneratorBodyDefNode: `tracing and not self.body.is_terminator` -> `tracing and self.body.is_terminator`', 'C45-PAIR ...:code:success:no-return'),
+    ('Cython/Compiler/ModuleNode.py', 'module init: delete code.put_trace_return("Py_None", ...)', 'C45-PAIR ModuleNode...:code:success:no-return'),
+    ('Cython/Compiler/ExprNodes.py', 'YieldExprNode: emit put_trace_resume before put_label(resume_label)', 'C45-PAIR ...generate_yield_code:yield:resume-before-label'),
+    ('Cython/Compiler/ExprNodes.py', 'YieldExprNode: delete the put_trace_resume block', 'C45-PAIR ...generate_yield_code:yield:count'),
+    ('Cython/Compiler/Nodes.py', 'FuncDefNode: delete the default `if tracing: code.put_trace_return(...)`', 'C45-PAIR ...:code:success:no-return'),
+    ('Cython/Compiler/Nodes.py', 'FuncDefNode: add put_trace_unwind in the #else branch next to put_trace_return("NULL")', 'C45-PAIR ...:code:error:double-unwind'),
+    ('Cython/Compiler/Code.py', 'put_trace_unwind: drop the nogil argument from the f-string', 'C45-M2 __Pyx_TraceExceptionUnwind:arity'),
+    ('Cython/Utility/Profile.c', 'no-op block: __Pyx_TraceExceptionUnwind(offset, nogil) -> (offset)', 'C45-M2 __Pyx_TraceExceptionUnwind:arity'),
+    ('Cython/Utility/Profile.c', 'no-op block: delete #define __Pyx_TraceExceptionHandled(offset)', 'C45-M2 __Pyx_TraceExceptionHandled:undefined'),
+    ('Cython/Compiler/Code.py', 'put_trace_return: delete `extra_arg = f", {return_type.to_py_function}"`', 'C45-M2 __Pyx_TraceReturnCValue:arity'),
+    ('Cython/Utility/Profile.c', '`#if !CYTHON_TRACE` (TraceLine fallback) -> `#if !CYTHON_PROFILE`', 'C45-M2 __Pyx_TraceLine:redefined + :undefined'),
+    ('Cython/Utility/Profile.c', 'swap PY_RESUME / PY_YIELD in the event index enum only', 'C45-EVT evt:table:PY_YIELD + evt:table:PY_RESUME'),
+    ('Cython/Utility/Profile.c', '__Pyx_TraceExceptionUnwind: fire through slot PY_RETURN', 'C45-EVT evt:__Pyx_TraceExceptionUnwind:PY_UNWIND'),
+    ('Cython/Utility/Profile.c', '__Pyx_TraceReturnValue: guard __Pyx_IsTracing(PY_UNWIND)', 'C45-EVT evt:__Pyx_TraceReturnValue:PY_RETURN:guard'),
+    ('Cython/Utility/Profile.c', '__Pyx__TraceResumeGen: fire through slot PY_START', 'C45-EVT evt:__Pyx__TraceResumeGen:PY_RESUME'),
+    ('Cython/Utility/Profile.c', '__Pyx__TraceException: FireReraiseEvent -> FireRaiseEvent', 'C45-EVT evt:__Pyx_TraceException:RAISE'),
+    ('Cython/Compiler/Nodes.py', 'FIX of finding 1: remove `not self.in_parallel and` in ReturnStatNode', 'C45-RET goes silent'),
+    ('Cython/Utility/Profile.c', 'FIX of finding 2: __Pyx_TraceYield fires through slot PY_YIELD', 'C45-EVT goes silent'),
+]
+SILENT_EDITS = [   # behaviour-preserving, no new violation
+    'ReraiseStatNode: `code.is_tracing()` -> `directives["profile"] or directives["linetrace"]`',
+    'swap two #define lines of the no-op block; swap PY_RESUME/PY_YIELD consistently in enum AND event type table',
+    'GeneratorBodyDefNode: `is_term = self.body.is_terminator; if tracing and not is_term:`',
+    'put_trace_unwind: f-string -> %-format',
+    '`if tracing: X` -> `if not tracing: pass / else: X`',
+    'YieldExprNode: `tracing = code.is_tracing(); if tracing:`',
+    'rename the local `tracing` in all of Nodes.py',
+]
+# Genuine defects on the unchanged tree that these rules report (confirmed by running compiled modules, see builder report):
+#  1. C45-RET  Nodes.ReturnStatNode.generate_execution_code: `return` inside prange / `with parallel()` emits no return event
+#     (profile=True, sys.setprofile sees ('call', f) without ('return', f)).
+#  2. C45-EVT  Profile.c __Pyx_TraceYield fires PY_YIELD through the PY_RETURN monitoring state (CPython >= 3.13: a tool that
+#     listens to PY_YIELD but not PY_RETURN receives no yield events from Cython generators).
 
 
 def run(ctx):
